@@ -117,6 +117,9 @@ Proof.
   - intros H. right. apply IH; exact H.
 Qed.
 
+Lemma get_default {V} (m : amap V) k v d : get m k = Some v -> match get m k with Some l => l | None => d end = v.
+Proof. intros ->; reflexivity. Qed.
+
 (* a property of every bound value survives [set] *)
 Lemma get_set_inv {V} (m : amap V) k k' v v' :
   get (set m k v) k' = Some v' -> (k' = k /\ v' = v) \/ (k' <> k /\ get m k' = Some v').
@@ -312,3 +315,1260 @@ Proof.
   - destruct H as (_ & e & rest & a' & x & b' & -> & _ & -> & ->). cbn. rewrite !app_length. cbn. lia.
   - destruct H as [->|(_ & e & _ & Ho)]; [reflexivity|]. eapply overwrite_length; exact Ho.
 Qed.
+
+(* ================================================================================================ *)
+(* 2. per-cluster invariant; one preservation lemma per handler                                     *)
+(* ================================================================================================ *)
+(* The invariant is parametrised by the "spec side":
+     lb t p      what the history says the newest broker offset of (t,p) is
+     P g t i e   what the history says about a stored commit e of group g, topic t, partition index i
+   so that the handler lemmas are free of any reasoning about histories. *)
+
+Definition bring_ok (N : nat) (r : bring) : Prop := length r = N /\ Forall (optP in_i64) r.
+
+Definition part_ok (P : nat -> coff -> Prop) (tl : list bring) (i : nat) (pr : cpartition) : Prop :=
+  forall w, pr_ring pr = Some w ->
+    Forall (optP (P i)) w /\ exists r b, nth_error tl i = Some r /\ last r None = Some b.
+
+Definition parts_ok (P : nat -> coff -> Prop) (tl : list bring) (parts : list cpartition) : Prop :=
+  (length parts <= length tl)%nat /\ forall i pr, nth_error parts i = Some pr -> part_ok P tl i pr.
+
+Definition group_ok (P : Z -> nat -> coff -> Prop) (br : amap (list bring)) (grp : cgroup) : Prop :=
+  NoDup (keys (g_topics grp)) /\
+  forall t parts, get (g_topics grp) t = Some parts -> exists tl, get br t = Some tl /\ parts_ok (P t) tl parts.
+
+Definition broker_ok (N : nat) (lb : Z -> Z -> option Z) (br : amap (list bring)) : Prop :=
+  forall t tl, get br t = Some tl ->
+    Forall (bring_ok N) tl /\
+    forall i r b, nth_error tl i = Some r -> last r None = Some b -> lb t (Z.of_nat i) = Some b.
+
+Definition cinv (N : nat) (lb : Z -> Z -> option Z) (P : Z -> Z -> nat -> coff -> Prop) (cl : cluster) : Prop :=
+  broker_ok N lb (cl_broker cl) /\
+  forall g grp, get (cl_consumer cl) g = Some grp -> group_ok (P g) (cl_broker cl) grp.
+
+Lemma Forall_set_nth {A} (Q : A -> Prop) l i x : Forall Q l -> Q x -> Forall Q (set_nth l i x).
+Proof.
+  intros Hl Hx. revert i. induction Hl as [|a l Ha Hl IH]; intros [|i]; cbn; auto.
+Qed.
+
+Lemma Forall_optP_impl {A} (Q R : A -> Prop) l : (forall a, Q a -> R a) -> Forall (optP Q) l -> Forall (optP R) l.
+Proof. intros H. apply Forall_impl. intros [a|]; cbn; auto. Qed.
+
+Lemma parts_ok_mono P (tl tl' : list bring) parts :
+  (length tl <= length tl')%nat ->
+  (forall i r b, nth_error tl i = Some r -> last r None = Some b ->
+                 exists r' b', nth_error tl' i = Some r' /\ last r' None = Some b') ->
+  parts_ok P tl parts -> parts_ok P tl' parts.
+Proof.
+  intros Hlen Hpt [Hl Hp]. split; [unfold bring in *; lia|].
+  intros i pr Hi w Hw. destruct (Hp i pr Hi w Hw) as (HF & r & b & Hr & Hb).
+  split; [exact HF|]. apply (Hpt i r b Hr Hb).
+Qed.
+
+Lemma parts_ok_impl (P Q : nat -> coff -> Prop) tl parts :
+  (forall i e, P i e -> Q i e) -> parts_ok P tl parts -> parts_ok Q tl parts.
+Proof.
+  intros H [Hl Hp]. split; [exact Hl|]. intros i pr Hi w Hw.
+  destruct (Hp i pr Hi w Hw) as (HF & Hr). split; [|exact Hr].
+  eapply Forall_optP_impl; [|exact HF]. apply H.
+Qed.
+
+Lemma group_ok_broker_mono P br br' grp :
+  (forall t tl, get br t = Some tl -> exists tl', get br' t = Some tl' /\ (length tl <= length tl')%nat /\
+     forall i r b, nth_error tl i = Some r -> last r None = Some b ->
+                   exists r' b', nth_error tl' i = Some r' /\ last r' None = Some b') ->
+  group_ok P br grp -> group_ok P br' grp.
+Proof.
+  intros H [Hnd Hg]. split; [exact Hnd|]. intros t parts Ht.
+  destruct (Hg t parts Ht) as (tl & Htl & Hp). destruct (H t tl Htl) as (tl' & Htl' & Hlen & Hpt).
+  exists tl'. split; [exact Htl'|]. eapply parts_ok_mono; eauto.
+Qed.
+
+Lemma group_ok_impl (P Q : Z -> nat -> coff -> Prop) br grp :
+  (forall t i e, P t i e -> Q t i e) -> group_ok P br grp -> group_ok Q br grp.
+Proof.
+  intros H [Hnd Hg]. split; [exact Hnd|]. intros t parts Ht.
+  destruct (Hg t parts Ht) as (tl & Htl & Hp). exists tl. split; [exact Htl|].
+  eapply parts_ok_impl; [|exact Hp]. apply H.
+Qed.
+
+Lemma group_ok_empty P br : group_ok P br empty_group.
+Proof. split; [constructor|]. cbn. discriminate. Qed.
+
+Lemma cinv_impl N lb lb' (P Q : Z -> Z -> nat -> coff -> Prop) cl :
+  (forall t p, lb' t p = lb t p) -> (forall g t i e, P g t i e -> Q g t i e) ->
+  cinv N lb P cl -> cinv N lb' Q cl.
+Proof.
+  intros Hlb HPQ [Hb Hg]. split.
+  - intros t tl Ht. destruct (Hb t tl Ht) as [HF Hl]. split; [exact HF|].
+    intros i r b Hr Hbv. rewrite Hlb. eapply Hl; eauto.
+  - intros g grp Hgr. eapply group_ok_impl; [|apply Hg; exact Hgr]. apply HPQ.
+Qed.
+
+(* a cluster-wise property survives replacing one cluster *)
+Lemma inv_set (Q : Z -> cluster -> Prop) (st : state) c0 cl' :
+  (forall c cl, get st c = Some cl -> Q c cl) -> Q c0 cl' ->
+  forall c cl, get (set st c0 cl') c = Some cl -> Q c cl.
+Proof.
+  intros H H0 c cl Hg. apply get_set_inv in Hg. destruct Hg as [[-> ->]|[_ Hg]]; auto.
+Qed.
+
+(* ---- SetBrokerOffset ---- *)
+Lemma last_repeat_none {A} n : last (repeat (@None A) n) None = None.
+Proof. induction n as [|n IH]; [reflexivity|]. cbn [repeat]. destruct n; [reflexivity|]. rewrite last_cons_ne; [exact IH|discriminate]. Qed.
+
+Lemma bring_ok_blank N : bring_ok N (repeat None N).
+Proof. split; [apply repeat_length|]. apply Forall_forall. intros x Hx. apply repeat_spec in Hx. subst. exact I. Qed.
+
+Lemma abo_inv cf st c cl t p cnt off lb lb' P :
+  (1 <= cf_intervals cf)%nat ->
+  get st c = Some cl -> cinv (cf_intervals cf) lb P cl ->
+  0 <= p < cnt -> in_i64 off ->
+  lb' t p = Some off -> (forall t' p', t' <> t \/ p' <> p -> lb' t' p' = lb t' p') ->
+  exists cl', add_broker_offset cf st c t p cnt off = Done (set st c cl') RNone /\
+              cl_consumer cl' = cl_consumer cl /\ cinv (cf_intervals cf) lb' P cl'.
+Proof.
+  intros HN Hc [Hb Hg] Hp Hoff Hlb1 Hlb2. unfold add_broker_offset. rewrite Hc.
+  set (N := cf_intervals cf) in *.
+  set (tl0 := match get (cl_broker cl) t with Some l => l | None => [] end).
+  set (tl1 := if Z.of_nat (length tl0) <=? cnt then tl0 ++ repeat (repeat None N) (Z.to_nat cnt - length tl0) else tl0).
+  assert (Htl0 : Forall (bring_ok N) tl0 /\
+                 forall i r b, nth_error tl0 i = Some r -> last r None = Some b -> lb t (Z.of_nat i) = Some b).
+  { unfold tl0. destruct (get (cl_broker cl) t) as [l|] eqn:E; [apply Hb; exact E|].
+    split; [constructor|]. intros [|i] r b H; discriminate. }
+  destruct Htl0 as [HF0 HL0].
+  assert (Hext : exists n, tl1 = tl0 ++ repeat (repeat None N) n).
+  { unfold tl1. destruct (Z.of_nat (length tl0) <=? cnt); [eexists; reflexivity|]. exists 0%nat. cbn. rewrite app_nil_r. reflexivity. }
+  assert (Hlen1 : (Z.to_nat p < length tl1)%nat).
+  { unfold tl1. destruct (Z.of_nat (length tl0) <=? cnt) eqn:E.
+    - rewrite app_length, repeat_length. lia.
+    - lia. }
+  assert (HF1 : Forall (bring_ok N) tl1).
+  { destruct Hext as [n ->]. apply Forall_app. split; [exact HF0|].
+    apply Forall_forall. intros x Hx. apply repeat_spec in Hx. subst. apply bring_ok_blank. }
+  assert (HL1 : forall i r b, nth_error tl1 i = Some r -> last r None = Some b -> nth_error tl0 i = Some r).
+  { destruct Hext as [n ->]. intros i r b Hr Hbv. apply nth_error_app_repeat in Hr. destruct Hr as [Hr| ->]; [exact Hr|].
+    rewrite last_repeat_none in Hbv. discriminate. }
+  destruct ((p <? 0) || (Z.of_nat (length tl1) <=? p)) eqn:Ecr; [lia|].
+  fold tl0. fold tl1.
+  set (i := Z.to_nat p). set (r := nth i tl1 []). set (r' := tl r ++ [Some off]).
+  set (newtl := set_nth tl1 i r').
+  exists (mkCluster (set (cl_broker cl) t newtl) (cl_consumer cl)).
+  split; [reflexivity|]. split; [reflexivity|].
+  assert (Hr : nth_error tl1 i = Some r) by (apply nth_nth_error; exact Hlen1).
+  assert (Hrok : bring_ok N r).
+  { rewrite Forall_forall in HF1. apply HF1. eapply nth_error_In; exact Hr. }
+  assert (Hr'ok : bring_ok N r').
+  { destruct Hrok as [Hl HFr]. unfold r'. split.
+    - rewrite app_length. cbn. destruct r as [|x r0]; cbn in *; lia.
+    - apply Forall_app. split; [|constructor; [exact Hoff|constructor]].
+      destruct r as [|x r0]; cbn; [constructor|]. inversion HFr; assumption. }
+  assert (Hlast' : last r' None = Some off) by (unfold r'; apply last_last).
+  assert (Hpi : Z.of_nat i = p) by (unfold i; lia).
+  split; cbn [cl_broker cl_consumer].
+  - intros t' tl' Ht'. apply get_set_inv in Ht'. destruct Ht' as [[-> ->]|[Hne Ht']].
+    + split; [apply Forall_set_nth; assumption|].
+      intros j rj b Hj Hbv. apply nth_error_set_nth_inv in Hj. destruct Hj as [[-> ->]|[Hne Hj]].
+      * rewrite Hpi, Hlb1. congruence.
+      * rewrite Hlb2 by (right; lia). eapply HL0; [|exact Hbv]. eapply HL1; eauto.
+    + destruct (Hb t' tl' Ht') as [HF HL]. split; [exact HF|].
+      intros j rj b Hj Hbv. rewrite Hlb2 by (left; exact Hne). eapply HL; eauto.
+  - intros g grp Hgr. eapply group_ok_broker_mono; [|apply Hg; exact Hgr].
+    intros t' tl' Ht'. destruct (Z.eq_dec t' t) as [->|Hne].
+    + exists newtl. rewrite get_set_eq. split; [reflexivity|].
+      assert (Etl : tl' = tl0) by (symmetry; apply get_default; exact Ht'). subst tl'.
+      split.
+      * unfold newtl. rewrite length_set_nth. destruct Hext as [n ->]. rewrite app_length. unfold bring in *; lia.
+      * intros j rj b Hj Hbv. destruct (Nat.eq_dec j i) as [->|Hji].
+        -- exists r', off. split; [apply nth_error_set_nth_eq; exact Hlen1|exact Hlast'].
+        -- exists rj, b. split; [|exact Hbv]. unfold newtl. rewrite nth_error_set_nth_neq by congruence.
+           destruct Hext as [n ->]. apply nth_error_app_l. exact Hj.
+    + exists tl'. rewrite get_set_neq by congruence. split; [exact Ht'|]. split; [lia|]. eauto.
+Qed.
+
+(* ---- getBrokerOffset / getConsumerPartition ---- *)
+Lemma gbo_spec cl t p boff cnt :
+  get_broker_offset cl t p = (boff, cnt) -> cnt <> 0 ->
+  exists (tl : list bring) r, get (cl_broker cl) t = Some tl /\ 0 <= p /\ nth_error tl (Z.to_nat p) = Some r /\
+               last r None = Some boff /\ cnt = Z.of_nat (length tl) /\ (Z.to_nat p < length tl)%nat.
+Proof.
+  unfold get_broker_offset. destruct (get (cl_broker cl) t) as [tl|]; [|intros H; injection H as <- <-; congruence].
+  destruct (p <? 0) eqn:E1; [intros H; injection H as <- <-; congruence|].
+  destruct (Z.of_nat (length tl) <=? p) eqn:E2; [intros H; injection H as <- <-; congruence|].
+  assert (Hl : (Z.to_nat p < length tl)%nat) by lia.
+  destruct (last (nth (Z.to_nat p) tl []) None) as [off|] eqn:E3; intros H; injection H as <- <-; [|congruence].
+  intros _. exists tl, (nth (Z.to_nat p) tl []). repeat split; auto; try lia. apply nth_nth_error; exact Hl.
+Qed.
+
+(* the offsets ring of partition index j, as the handlers see it: a partition that does not exist yet, or has
+   no ring yet, is given a fresh all-empty ring on first use *)
+Definition ring_at (N : nat) (l : list cpartition) (j : nat) : ring :=
+  match nth_error l j with
+  | Some pr => match pr_ring pr with Some w => w | None => new_ring N end
+  | None => new_ring N
+  end.
+
+Definition gcp (N : nat) (l0 : list cpartition) (p cnt : Z) : list cpartition :=
+  let l1 := if Z.of_nat (length l0) <=? p
+            then l0 ++ repeat empty_partition (Z.to_nat cnt - length l0) else l0 in
+  let i := Z.to_nat p in
+  let pr := nth i l1 empty_partition in
+  match pr_ring pr with
+  | Some _ => l1
+  | None => set_nth l1 i (mkCpartition (Some (new_ring N)) (pr_owner pr) (pr_client pr))
+  end.
+
+Lemma gcp_eq cf grp t p cnt :
+  get_consumer_partition cf grp t p cnt =
+  gcp (cf_intervals cf) (match get (g_topics grp) t with Some l => l | None => [] end) p cnt.
+Proof. reflexivity. Qed.
+
+Lemma Forall_new_ring (Q : coff -> Prop) N : Forall (optP Q) (new_ring N).
+Proof. apply Forall_forall. intros x Hx. apply repeat_spec in Hx. subst. exact I. Qed.
+
+Lemma gcp_ok P (tl : list bring) l0 p r b N :
+  parts_ok P tl l0 -> 0 <= p -> nth_error tl (Z.to_nat p) = Some r -> last r None = Some b ->
+  let parts := gcp N l0 p (Z.of_nat (length tl)) in
+  parts_ok P tl parts /\
+  (forall j, ring_at N parts j = ring_at N l0 j) /\
+  exists pr, nth_error parts (Z.to_nat p) = Some pr /\ pr_ring pr = Some (ring_at N l0 (Z.to_nat p)) /\
+             Forall (optP (P (Z.to_nat p))) (ring_at N l0 (Z.to_nat p)).
+Proof.
+  intros [Hlen Hp] Hp0 Hr Hb. unfold gcp.
+  set (i := Z.to_nat p).
+  set (l1 := if Z.of_nat (length l0) <=? p then l0 ++ repeat empty_partition (Z.to_nat (Z.of_nat (length tl)) - length l0) else l0).
+  assert (Hi : (i < length tl)%nat) by (apply nth_error_Some; fold i in Hr; congruence).
+  assert (Hext : exists n, l1 = l0 ++ repeat empty_partition n).
+  { unfold l1. destruct (Z.of_nat (length l0) <=? p); [eexists; reflexivity|]. exists 0%nat. cbn. rewrite app_nil_r. reflexivity. }
+  assert (Hl1 : (length l1 <= length tl)%nat /\ (i < length l1)%nat).
+  { unfold l1. destruct (Z.of_nat (length l0) <=? p) eqn:E.
+    - rewrite app_length, repeat_length. unfold bring in *. lia.
+    - unfold bring in *. lia. }
+  destruct Hl1 as [Hl1a Hl1b].
+  assert (Hnth1 : forall j pr, nth_error l1 j = Some pr -> nth_error l0 j = Some pr \/ (nth_error l0 j = None /\ pr = empty_partition)).
+  { destruct Hext as [n ->]. intros j pr Hj. destruct (lt_dec j (length l0)) as [Hl|Hl].
+    - left. rewrite nth_error_app1 in Hj by exact Hl. exact Hj.
+    - right. split; [apply nth_error_None; lia|]. rewrite nth_error_app2 in Hj by lia. eapply nth_error_repeat; exact Hj. }
+  assert (Hnone1 : forall j, nth_error l1 j = None -> nth_error l0 j = None).
+  { destruct Hext as [n ->]. intros j Hj. apply nth_error_None in Hj. apply nth_error_None. rewrite app_length in Hj. lia. }
+  assert (Hra1 : forall j, ring_at N l1 j = ring_at N l0 j).
+  { intros j. unfold ring_at. destruct (nth_error l1 j) as [pr|] eqn:E.
+    - destruct (Hnth1 j pr E) as [-> |[-> ->]]; reflexivity.
+    - rewrite (Hnone1 j E). reflexivity. }
+  assert (Hok1 : parts_ok P tl l1).
+  { split; [exact Hl1a|]. intros j pr Hj. destruct (Hnth1 j pr Hj) as [H|[_ ->]]; [apply Hp; exact H|].
+    intros w Hw; discriminate. }
+  set (pr := nth i l1 empty_partition).
+  assert (Hpr : nth_error l1 i = Some pr) by (apply nth_nth_error; exact Hl1b).
+  destruct (pr_ring pr) as [w|] eqn:Ew.
+  - split; [exact Hok1|]. split; [exact Hra1|]. exists pr.
+    assert (Ewr : ring_at N l0 i = w).
+    { rewrite <- Hra1. unfold ring_at. rewrite Hpr, Ew. reflexivity. }
+    rewrite Ewr. split; [exact Hpr|]. split; [exact Ew|].
+    destruct Hok1 as [_ H1]. apply (H1 i pr Hpr w Ew).
+  - assert (Ewr : ring_at N l0 i = new_ring N).
+    { rewrite <- Hra1. unfold ring_at. rewrite Hpr, Ew. reflexivity. }
+    split; [|split].
+    + split; [rewrite length_set_nth; exact Hl1a|].
+      intros j pr' Hj. apply nth_error_set_nth_inv in Hj. destruct Hj as [[-> ->]|[Hne Hj]].
+      * intros w Hw. cbn in Hw. injection Hw as <-. split; [apply Forall_new_ring|]. exists r, b. auto.
+      * destruct Hok1 as [_ H1]. apply H1; exact Hj.
+    + intros j. rewrite <- Hra1. unfold ring_at. destruct (Nat.eq_dec j i) as [->|Hne].
+      * rewrite nth_error_set_nth_eq by exact Hl1b. rewrite Hpr, Ew. reflexivity.
+      * rewrite nth_error_set_nth_neq by congruence. reflexivity.
+    + eexists. split; [apply nth_error_set_nth_eq; exact Hl1b|]. cbn. rewrite Ewr. split; [reflexivity|apply Forall_new_ring].
+Qed.
+
+(* ---- SetConsumerOffset ---- *)
+Lemma last_In_some {A} (r : list (option A)) b : last r None = Some b -> In (Some b) r.
+Proof.
+  destruct r as [|x r] using rev_ind; [discriminate|]. rewrite last_last. intros ->. apply in_or_app. right. left. reflexivity.
+Qed.
+
+(* the partitions of (group, topic) in a cluster; [] when absent *)
+Definition cons_topic (cl : cluster) (g t : Z) : list cpartition :=
+  match get (cl_consumer cl) g with
+  | Some grp => match get (g_topics grp) t with Some l => l | None => [] end
+  | None => []
+  end.
+
+Lemma parts_ok_nil P tl : parts_ok P tl [].
+Proof. split; [cbn; lia|]. intros [|i] pr H; discriminate. Qed.
+
+Lemma commit_lag_spec b o : in_i64 b -> in_i64 o -> commit_lag b o = Z.max 0 (b - o) /\ 0 <= commit_lag b o < two64.
+Proof.
+  intros Hb Ho. unfold commit_lag. destruct (o <? b) eqn:E.
+  - destruct (lag_cast_exact b o Hb Ho ltac:(lia)) as [-> H]. lia.
+  - unfold two64. lia.
+Qed.
+
+Lemma current_lag_spec b o : in_i64 b -> in_i64 o -> current_lag b o = Z.max 0 (b - o) /\ 0 <= current_lag b o < two64.
+Proof.
+  intros Hb Ho. unfold current_lag. destruct (b <? o) eqn:E.
+  - unfold two64. lia.
+  - destruct (lag_cast_exact b o Hb Ho ltac:(lia)) as [-> H]. lia.
+Qed.
+
+Lemma aco_inv cf now st c cl g t p off order ts lb P :
+  let N := cf_intervals cf in
+  let i := Z.to_nat p in
+  get st c = Some cl -> cinv N lb P cl ->
+  (forall boff (app : bool) e, 0 <= p -> lb t p = Some boff -> in_i64 boff ->
+     new_entry (mkCommit off order ts) (if app then Some (commit_lag boff off) else None) e -> P g t i e) ->
+  add_consumer_offset cf now st c g t p off order ts = Done st RNone \/
+  exists cl' boff w' app,
+    add_consumer_offset cf now st c g t p off order ts = Done (set st c cl') RNone /\
+    cinv N lb P cl' /\ cl_broker cl' = cl_broker cl /\
+    lb t p = Some boff /\ in_i64 boff /\ 0 <= p /\
+    ring_step (cf_min_distance cf) (ring_at N (cons_topic cl g t) i) (mkCommit off order ts) (commit_lag boff off) = (w', app) /\
+    ring_at N (cons_topic cl' g t) i = w' /\
+    (forall g' t' j, (g' <> g \/ t' <> t \/ j <> i) -> ring_at N (cons_topic cl' g' t') j = ring_at N (cons_topic cl g' t') j).
+Proof.
+  intros N i Hc [Hb Hg] Hnew. unfold add_consumer_offset. rewrite Hc.
+  destruct (too_old cf now ts); [left; reflexivity|].
+  destruct (negb (cf_accept cf g)); [left; reflexivity|].
+  destruct (get_broker_offset cl t p) as [boff cnt] eqn:Eg.
+  destruct (cnt =? 0) eqn:Ecnt; [left; reflexivity|].
+  right. apply gbo_spec in Eg; [|lia]. destruct Eg as (tl & r & Htl & Hp0 & Hr & Hlast & -> & Hlt).
+  destruct (Hb t tl Htl) as [HFb HLb].
+  assert (Hlbp : lb t p = Some boff).
+  { replace p with (Z.of_nat (Z.to_nat p)) by lia. eapply HLb; eauto. }
+  assert (Hboff : in_i64 boff).
+  { rewrite Forall_forall in HFb. destruct (HFb r (nth_error_In _ _ Hr)) as [_ HFr].
+    rewrite Forall_forall in HFr. apply (HFr (Some boff)). apply last_In_some. exact Hlast. }
+  set (grp := match get (cl_consumer cl) g with Some x => x | None => empty_group end).
+  assert (Hgrp : group_ok (P g) (cl_broker cl) grp).
+  { unfold grp. destruct (get (cl_consumer cl) g) eqn:E; [apply Hg; exact E|apply group_ok_empty]. }
+  assert (El0 : match get (g_topics grp) t with Some l => l | None => [] end = cons_topic cl g t).
+  { unfold cons_topic, grp. destruct (get (cl_consumer cl) g); reflexivity. }
+  rewrite gcp_eq, El0.
+  assert (Hl0 : parts_ok (P g t) tl (cons_topic cl g t)).
+  { rewrite <- El0. destruct Hgrp as [_ Hgt]. destruct (get (g_topics grp) t) as [l|] eqn:E; [|apply parts_ok_nil].
+    destruct (Hgt t l E) as (tl' & Htl' & Hok). assert (tl' = tl) by congruence. subst tl'. exact Hok. }
+  destruct (gcp_ok (P g t) tl (cons_topic cl g t) p r boff N Hl0 Hp0 Hr Hlast) as (Hparts & Hra & pr & Hpr & Hprw & HFw).
+  fold N. fold i in Hpr, Hprw, HFw |- *.
+  set (parts := gcp N (cons_topic cl g t) p (Z.of_nat (length tl))) in *.
+  rewrite (nth_error_nth parts i empty_partition Hpr). rewrite Hprw.
+  destruct (ring_step (cf_min_distance cf) (ring_at N (cons_topic cl g t) i) (mkCommit off order ts) (commit_lag boff off))
+    as [w' app] eqn:Ers.
+  set (parts' := set_nth parts i (mkCpartition (Some w') (pr_owner pr) (pr_client pr))).
+  set (grp' := mkCgroup (set (g_topics grp) t parts') (if app then ts else g_last grp)).
+  exists (mkCluster (cl_broker cl) (set (cl_consumer cl) g grp')), boff, w', app.
+  assert (Hilen : (i < length parts)%nat) by (apply nth_error_Some; congruence).
+  assert (Hparts' : parts_ok (P g t) tl parts').
+  { destruct Hparts as [Hpl Hpp]. split; [unfold parts'; rewrite length_set_nth; exact Hpl|].
+    intros j pr' Hj. apply nth_error_set_nth_inv in Hj. destruct Hj as [[-> ->]|[Hne Hj]]; [|apply Hpp; exact Hj].
+    intros w Hw. cbn in Hw. injection Hw as <-. split; [|exists r, boff; auto].
+    apply Forall_forall. intros s Hs. destruct (ring_step_slots _ _ _ _ _ _ s Ers Hs) as [Hin|(e & -> & He)].
+    - rewrite Forall_forall in HFw. apply HFw; exact Hin.
+    - cbn. eapply Hnew; eauto. }
+  split; [reflexivity|]. split; [|split; [reflexivity|]].
+  - split; [exact Hb|]. cbn [cl_broker cl_consumer]. intros g' grp0 Hg'.
+    apply get_set_inv in Hg'. destruct Hg' as [[-> ->]|[Hne Hg']]; [|apply Hg; exact Hg'].
+    destruct Hgrp as [Hnd Hgt]. split; [apply NoDup_keys_set; exact Hnd|].
+    cbn [g_topics]. intros t' ps Ht'. apply get_set_inv in Ht'. destruct Ht' as [[-> ->]|[Hne Ht']]; [|apply Hgt; exact Ht'].
+    exists tl. split; [exact Htl|exact Hparts'].
+  - split; [exact Hlbp|]. split; [exact Hboff|]. split; [exact Hp0|]. split; [exact Ers|]. split.
+    + unfold cons_topic. cbn [cl_consumer]. rewrite get_set_eq. unfold grp'. cbn [g_topics]. rewrite get_set_eq.
+      unfold ring_at, parts'. rewrite nth_error_set_nth_eq by exact Hilen. reflexivity.
+    + intros g' t' j Hd. unfold cons_topic at 1. cbn [cl_consumer].
+      destruct (Z.eq_dec g' g) as [->|Hgne]; [|rewrite get_set_neq by congruence; reflexivity].
+      rewrite get_set_eq. unfold grp'. cbn [g_topics].
+      destruct (Z.eq_dec t' t) as [->|Htne].
+      * rewrite get_set_eq. destruct (Nat.eq_dec j i) as [->|Hjne]; [exfalso; destruct Hd as [?|[?|?]]; congruence|].
+        unfold ring_at at 1. unfold parts'. rewrite nth_error_set_nth_neq by congruence.
+        fold (ring_at N parts j). apply Hra.
+      * rewrite get_set_neq by congruence. unfold cons_topic, grp. destruct (get (cl_consumer cl) g); reflexivity.
+Qed.
+
+(* ---- SetConsumerOwner / ClearConsumerOwners ---- *)
+Lemma aown_inv cf st c cl g t p owner client lb P :
+  let N := cf_intervals cf in
+  get st c = Some cl -> cinv N lb P cl ->
+  add_consumer_owner cf st c g t p owner client = Done st RNone \/
+  exists cl', add_consumer_owner cf st c g t p owner client = Done (set st c cl') RNone /\
+              cinv N lb P cl' /\ cl_broker cl' = cl_broker cl /\
+              forall g' t' j, ring_at N (cons_topic cl' g' t') j = ring_at N (cons_topic cl g' t') j.
+Proof.
+  intros N Hc [Hb Hg]. unfold add_consumer_owner. rewrite Hc.
+  destruct (negb (cf_accept cf g)); [left; reflexivity|]. right.
+  set (grp := match get (cl_consumer cl) g with Some x => x | None => empty_group end).
+  assert (Hgrp : group_ok (P g) (cl_broker cl) grp).
+  { unfold grp. destruct (get (cl_consumer cl) g) eqn:E; [apply Hg; exact E|apply group_ok_empty]. }
+  assert (Ect : forall t', match get (g_topics grp) t' with Some l => l | None => [] end = cons_topic cl g t').
+  { intros t'. unfold cons_topic, grp. destruct (get (cl_consumer cl) g); reflexivity. }
+  destruct (get_broker_offset cl t p) as [boff cnt] eqn:Eg.
+  destruct (cnt =? 0) eqn:Ecnt.
+  - exists (mkCluster (cl_broker cl) (set (cl_consumer cl) g grp)). split; [reflexivity|]. split; [|split; [reflexivity|]].
+    + split; [exact Hb|]. cbn [cl_broker cl_consumer]. intros g' grp0 Hg'.
+      apply get_set_inv in Hg'. destruct Hg' as [[-> ->]|[Hne Hg']]; [exact Hgrp|apply Hg; exact Hg'].
+    + intros g' t' j. unfold cons_topic at 1. cbn [cl_consumer].
+      destruct (Z.eq_dec g' g) as [->|Hgne]; [|rewrite get_set_neq by congruence; reflexivity].
+      rewrite get_set_eq, Ect. reflexivity.
+  - apply gbo_spec in Eg; [|lia]. destruct Eg as (tl & r & Htl & Hp0 & Hr & Hlast & -> & Hlt).
+    rewrite gcp_eq, Ect.
+    assert (Hl0 : parts_ok (P g t) tl (cons_topic cl g t)).
+    { rewrite <- Ect. destruct Hgrp as [_ Hgt]. destruct (get (g_topics grp) t) as [l|] eqn:E; [|apply parts_ok_nil].
+      destruct (Hgt t l E) as (tl' & Htl' & Hok). assert (tl' = tl) by congruence. subst tl'. exact Hok. }
+    set (i := Z.to_nat p).
+    destruct (gcp_ok (P g t) tl (cons_topic cl g t) p r boff N Hl0 Hp0 Hr Hlast) as (Hparts & Hra & pr & Hpr & Hprw & HFw).
+    fold N. fold i in Hpr, Hprw, HFw |- *.
+    set (parts := gcp N (cons_topic cl g t) p (Z.of_nat (length tl))) in *.
+    rewrite (nth_error_nth parts i empty_partition Hpr).
+    set (parts' := set_nth parts i (mkCpartition (pr_ring pr) owner client)).
+    set (grp' := mkCgroup (set (g_topics grp) t parts') (g_last grp)).
+    exists (mkCluster (cl_broker cl) (set (cl_consumer cl) g grp')).
+    assert (Hilen : (i < length parts)%nat) by (apply nth_error_Some; congruence).
+    assert (Hparts' : parts_ok (P g t) tl parts').
+    { destruct Hparts as [Hpl Hpp]. split; [unfold parts'; rewrite length_set_nth; exact Hpl|].
+      intros j pr' Hj. apply nth_error_set_nth_inv in Hj. destruct Hj as [[-> ->]|[Hne Hj]]; [|apply Hpp; exact Hj].
+      intros w Hw. cbn in Hw. apply (Hpp i pr Hpr w Hw). }
+    split; [reflexivity|]. split; [|split; [reflexivity|]].
+    + split; [exact Hb|]. cbn [cl_broker cl_consumer]. intros g' grp0 Hg'.
+      apply get_set_inv in Hg'. destruct Hg' as [[-> ->]|[Hne Hg']]; [|apply Hg; exact Hg'].
+      destruct Hgrp as [Hnd Hgt]. split; [apply NoDup_keys_set; exact Hnd|].
+      cbn [g_topics]. intros t' ps Ht'. apply get_set_inv in Ht'. destruct Ht' as [[-> ->]|[Hne Ht']]; [|apply Hgt; exact Ht'].
+      exists tl. split; [exact Htl|exact Hparts'].
+    + intros g' t' j. unfold cons_topic at 1. cbn [cl_consumer].
+      destruct (Z.eq_dec g' g) as [->|Hgne]; [|rewrite get_set_neq by congruence; reflexivity].
+      rewrite get_set_eq. unfold grp'. cbn [g_topics].
+      destruct (Z.eq_dec t' t) as [->|Htne]; [|rewrite get_set_neq by congruence; rewrite Ect; reflexivity].
+      rewrite get_set_eq. rewrite <- Hra. unfold ring_at, parts'.
+      destruct (Nat.eq_dec j i) as [->|Hjne].
+      * rewrite nth_error_set_nth_eq by exact Hilen. rewrite Hpr. reflexivity.
+      * rewrite nth_error_set_nth_neq by congruence. reflexivity.
+Qed.
+
+Lemma clear_inv cf st c cl g lb P :
+  let N := cf_intervals cf in
+  get st c = Some cl -> cinv N lb P cl ->
+  clear_consumer_owners cf st c g = Done st RNone \/
+  exists cl', clear_consumer_owners cf st c g = Done (set st c cl') RNone /\
+              cinv N lb P cl' /\ cl_broker cl' = cl_broker cl /\
+              forall g' t' j, ring_at N (cons_topic cl' g' t') j = ring_at N (cons_topic cl g' t') j.
+Proof.
+  intros N Hc [Hb Hg]. unfold clear_consumer_owners. rewrite Hc.
+  destruct (negb (cf_accept cf g)); [left; reflexivity|].
+  destruct (get (cl_consumer cl) g) as [grp|] eqn:Egr; [|left; reflexivity]. right.
+  exists (mkCluster (cl_broker cl) (set (cl_consumer cl) g (clear_owners_group grp))).
+  split; [reflexivity|]. split; [|split; [reflexivity|]].
+  - split; [exact Hb|]. cbn [cl_broker cl_consumer]. intros g' grp0 Hg'.
+    apply get_set_inv in Hg'. destruct Hg' as [[-> ->]|[Hne Hg']]; [|apply Hg; exact Hg'].
+    destruct (Hg g grp Egr) as [Hnd Hgt]. unfold clear_owners_group. split; cbn [g_topics].
+    + apply NoDup_keys_map_vals. exact Hnd.
+    + intros t ps Ht. rewrite get_map_vals in Ht. destruct (get (g_topics grp) t) as [l|] eqn:El; [|discriminate].
+      cbn in Ht. injection Ht as <-. destruct (Hgt t l El) as (tl & Htl & [Hlen Hpp]). exists tl. split; [exact Htl|].
+      split; [rewrite map_length; exact Hlen|].
+      intros j pr Hj. rewrite nth_error_map in Hj. destruct (nth_error l j) as [pr0|] eqn:Ej; [|discriminate].
+      cbn in Hj. injection Hj as <-. intros w Hw. cbn in Hw. apply (Hpp j pr0 Ej w Hw).
+  - intros g' t' j. unfold cons_topic. cbn [cl_consumer].
+    destruct (Z.eq_dec g' g) as [->|Hgne]; [|rewrite get_set_neq by congruence; reflexivity].
+    rewrite get_set_eq, Egr. unfold clear_owners_group. cbn [g_topics]. rewrite get_map_vals.
+    destruct (get (g_topics grp) t') as [l|]; [|reflexivity]. cbn [option_map].
+    unfold ring_at. rewrite nth_error_map. destruct (nth_error l j) as [pr0|]; reflexivity.
+Qed.
+
+(* ---- deletions (DeleteTopic, DeleteGroup, lazy expiry inside FetchConsumer) ---- *)
+(* every offsets ring is either untouched or gone (a later commit would start from a fresh ring) *)
+Definition rings_kept (N : nat) (cl cl' : cluster) : Prop :=
+  forall g t j, ring_at N (cons_topic cl' g t) j = ring_at N (cons_topic cl g t) j \/
+                ring_at N (cons_topic cl' g t) j = new_ring N.
+
+Lemma ring_at_nil N j : ring_at N [] j = new_ring N.
+Proof. unfold ring_at. destruct j; reflexivity. Qed.
+
+Lemma group_ok_remove_topic P br grp t x : group_ok P br grp -> group_ok P br (mkCgroup (remove (g_topics grp) t) x).
+Proof.
+  intros [Hnd Hgt]. split; cbn [g_topics]; [apply NoDup_keys_remove; exact Hnd|].
+  intros t' ps Ht'. apply get_remove_inv in Ht'. destruct Ht' as [_ Ht']. apply Hgt; exact Ht'.
+Qed.
+
+Lemma cinv_remove_group N lb P cl g :
+  cinv N lb P cl ->
+  cinv N lb P (mkCluster (cl_broker cl) (remove (cl_consumer cl) g)) /\
+  rings_kept N cl (mkCluster (cl_broker cl) (remove (cl_consumer cl) g)).
+Proof.
+  intros [Hb Hg]. split.
+  - split; [exact Hb|]. cbn [cl_broker cl_consumer]. intros g' grp Hg'. apply get_remove_inv in Hg'. apply Hg. tauto.
+  - intros g' t j. unfold cons_topic at 1 3. cbn [cl_consumer]. destruct (Z.eq_dec g' g) as [->|Hne].
+    + right. rewrite get_remove_eq. apply ring_at_nil.
+    + left. rewrite get_remove_neq by congruence. reflexivity.
+Qed.
+
+Lemma dtopic_inv cf st c cl t lb P :
+  let N := cf_intervals cf in
+  get st c = Some cl -> cinv N lb P cl ->
+  exists cl', delete_topic st c t = Done (set st c cl') RNone /\ cinv N lb P cl' /\ rings_kept N cl cl'.
+Proof.
+  intros N Hc [Hb Hg]. unfold delete_topic. rewrite Hc. eexists. split; [reflexivity|]. split; [split|].
+  - cbn [cl_broker]. intros t' tl Ht'. apply get_remove_inv in Ht'. apply Hb. tauto.
+  - cbn [cl_broker cl_consumer]. intros g grp' Hg'. rewrite get_map_vals in Hg'.
+    destruct (get (cl_consumer cl) g) as [grp|] eqn:Egr; [|discriminate]. cbn in Hg'. injection Hg' as <-.
+    destruct (Hg g grp Egr) as [Hnd Hgt]. split; cbn [g_topics]; [apply NoDup_keys_remove; exact Hnd|].
+    intros t' ps Ht'. apply get_remove_inv in Ht'. destruct Ht' as [Hne Ht'].
+    destruct (Hgt t' ps Ht') as (tl & Htl & Hok). exists tl. split; [|exact Hok].
+    rewrite get_remove_neq by congruence. exact Htl.
+  - intros g t' j. unfold cons_topic at 1 3. cbn [cl_consumer]. rewrite get_map_vals.
+    destruct (get (cl_consumer cl) g) as [grp|] eqn:Egr; cbn [option_map g_topics].
+    + destruct (Z.eq_dec t' t) as [->|Hne].
+      * right. rewrite get_remove_eq. apply ring_at_nil.
+      * left. rewrite get_remove_neq by congruence. unfold cons_topic. rewrite Egr. reflexivity.
+    + left. unfold cons_topic. rewrite Egr. reflexivity.
+Qed.
+
+Lemma dgroup_inv cf st c cl g t lb P :
+  let N := cf_intervals cf in
+  get st c = Some cl -> cinv N lb P cl ->
+  delete_group st c g t = Done st RNone \/
+  exists cl', delete_group st c g t = Done (set st c cl') RNone /\ cinv N lb P cl' /\
+              cl_broker cl' = cl_broker cl /\ rings_kept N cl cl'.
+Proof.
+  intros N Hc Hinv. unfold delete_group. rewrite Hc.
+  destruct (get (cl_consumer cl) g) as [grp|] eqn:Egr; [|left; reflexivity]. right.
+  destruct (cinv_remove_group N lb P cl g Hinv) as [Hrm Hrk].
+  destruct (t =? 0); [eexists; split; [reflexivity|]; split; [exact Hrm|split; [reflexivity|exact Hrk]]|].
+  destruct (remove (g_topics grp) t) as [|kv rest] eqn:Erm;
+    [eexists; split; [reflexivity|]; split; [exact Hrm|split; [reflexivity|exact Hrk]]|].
+  rewrite <- Erm. eexists. split; [reflexivity|]. destruct Hinv as [Hb Hg]. split; [split|split; [reflexivity|]].
+  - exact Hb.
+  - cbn [cl_broker cl_consumer]. intros g' grp0 Hg'.
+    apply get_set_inv in Hg'. destruct Hg' as [[-> ->]|[Hne Hg']]; [|apply Hg; exact Hg'].
+    apply group_ok_remove_topic. apply Hg; exact Egr.
+  - intros g' t' j. unfold cons_topic at 1 3. cbn [cl_consumer]. destruct (Z.eq_dec g' g) as [->|Hne].
+    + rewrite get_set_eq. cbn [g_topics]. destruct (Z.eq_dec t' t) as [->|Htne].
+      * right. rewrite get_remove_eq. apply ring_at_nil.
+      * left. rewrite get_remove_neq by congruence. unfold cons_topic. rewrite Egr. reflexivity.
+    + left. rewrite get_set_neq by congruence. reflexivity.
+Qed.
+
+(* ---- FetchConsumer ---- *)
+Lemma add_lags_spec tl cps : forall k res,
+  add_lags tl k cps = Some res ->
+  forall j cp', nth_error res j = Some cp' ->
+    exists cp, nth_error cps j = Some cp /\
+               match nth_error tl (k + j) with Some r => add_lag r cp = Some cp' | None => cp' = cp end.
+Proof.
+  induction cps as [|cp rest IH]; intros k res H; cbn [add_lags] in H.
+  - injection H as <-. intros [|j] cp' Hj; discriminate.
+  - assert (Hrest : forall rest' j cp', add_lags tl (S k) rest = Some rest' -> nth_error rest' j = Some cp' ->
+              exists cp0, nth_error rest j = Some cp0 /\
+                match nth_error tl (k + S j) with Some r => add_lag r cp0 = Some cp' | None => cp' = cp0 end).
+    { intros rest' j cp' E2 Hj. destruct (IH (S k) rest' E2 j cp' Hj) as (cp0 & H1 & H2). exists cp0.
+      replace (k + S j)%nat with (S k + j)%nat by lia. auto. }
+    destruct (nth_error tl k) as [r|] eqn:Er.
+    + destruct (add_lag r cp) as [cp1|] eqn:E1; [|discriminate].
+      destruct (add_lags tl (S k) rest) as [rest'|] eqn:E2; [|discriminate].
+      injection H as <-. intros [|j] cp' Hj; cbn in Hj.
+      * injection Hj as <-. exists cp. rewrite Nat.add_0_r, Er. auto.
+      * apply (Hrest rest' j cp' eq_refl Hj).
+    + destruct (add_lags tl (S k) rest) as [rest'|] eqn:E2; [|discriminate].
+      injection H as <-. intros [|j] cp' Hj; cbn in Hj.
+      * injection Hj as <-. exists cp. rewrite Nat.add_0_r, Er. auto.
+      * apply (Hrest rest' j cp' eq_refl Hj).
+Qed.
+
+(* since /repo 54faa50 the lag loop of fetchConsumer has no panic site left *)
+Lemma add_lag_total r cp : add_lag r cp <> None.
+Proof.
+  unfold add_lag. destruct (cp_offsets cp); [discriminate|]. destruct (somes r); [discriminate|].
+  destruct (last (o :: l) None); discriminate.
+Qed.
+
+Lemma add_lags_ok tl cps : forall k, add_lags tl k cps <> None.
+Proof.
+  induction cps as [|cp rest IH]; intros k; cbn [add_lags]; [discriminate|].
+  pose proof (IH (S k)) as H2.
+  destruct (nth_error tl k) as [r|].
+  - pose proof (add_lag_total r cp). destruct (add_lag r cp); [|congruence]. destruct (add_lags tl (S k) rest); congruence.
+  - destruct (add_lags tl (S k) rest); congruence.
+Qed.
+
+Lemma fetch_topics_lags_spec br tops : forall l,
+  fetch_topics_lags br tops = Some l ->
+  forall t cps', In (t, cps') l ->
+    exists cps, In (t, cps) tops /\
+                match get br t with None => cps' = cps | Some tl => add_lags tl 0 cps = Some cps' end.
+Proof.
+  induction tops as [|[t0 cps0] rest IH]; intros l H; cbn [fetch_topics_lags] in H.
+  - injection H as <-. intros t cps' [].
+  - destruct (match get br t0 with Some tl => add_lags tl 0 cps0 | None => Some cps0 end) as [h|] eqn:Eh; [|discriminate].
+    destruct (fetch_topics_lags br rest) as [rest'|] eqn:Er; [|discriminate].
+    injection H as <-. intros t cps' [E|Hin].
+    + injection E as <- <-. exists cps0. split; [left; reflexivity|].
+      destruct (get br t0); [exact Eh|congruence].
+    + destruct (IH rest' eq_refl t cps' Hin) as (cps & Hc & Hm). exists cps. split; [right; exact Hc|exact Hm].
+Qed.
+
+Lemma fetch_topics_lags_ok br tops :
+  (forall t cps, In (t, cps) tops -> match get br t with None => True | Some tl => add_lags tl 0 cps <> None end) ->
+  fetch_topics_lags br tops <> None.
+Proof.
+  induction tops as [|[t0 cps0] rest IH]; intros H; cbn [fetch_topics_lags]; [discriminate|].
+  assert (H0 := H t0 cps0 (or_introl eq_refl)).
+  assert (Hr : fetch_topics_lags br rest <> None) by (apply IH; intros t cps Hin; apply H; right; exact Hin).
+  destruct (get br t0) as [tl|].
+  - destruct (add_lags tl 0 cps0); [|congruence]. destruct (fetch_topics_lags br rest); congruence.
+  - destruct (fetch_topics_lags br rest); congruence.
+Qed.
+
+(* one partition of the reply *)
+Lemma add_lag_snapshot r pr cp' :
+  add_lag r (snapshot_partition pr) = Some cp' ->
+  cp_brokers cp' = somes r /\ cp_owner cp' = pr_owner pr /\ cp_client cp' = pr_client pr /\
+  match pr_ring pr with
+  | None => cp_offsets cp' = [] /\ cp_lag cp' = 0
+  | Some w => cp_offsets cp' = rev w /\
+              forall b, last r None = Some b ->
+                        cp_lag cp' = match hd None w with Some lo => current_lag b (co_offset lo) | None => 0 end
+  end.
+Proof.
+  unfold add_lag, snapshot_partition. cbn [cp_offsets cp_brokers cp_owner cp_client cp_lag].
+  destruct (pr_ring pr) as [w|].
+  - unfold readout. pose proof (last_rev_hd w None) as Hl. destruct (rev w) as [|o0 orest] eqn:Erev.
+    + intros H. injection H as <-. cbn. repeat split; auto. intros b _.
+      destruct w as [|x w']; [reflexivity|]. cbn in Erev. apply app_eq_nil in Erev. destruct Erev; discriminate.
+    + destruct (somes r) as [|b0 brest] eqn:Es.
+      { intros H. injection H as <-. cbn [cp_offsets cp_brokers cp_owner cp_client cp_lag]. repeat split; auto.
+        intros b Hb. destruct (somes_last r b Hb) as [Hne _]. congruence. }
+      rewrite Hl. destruct (hd None w) as [lo|].
+      * intros H. injection H as <-. cbn [cp_offsets cp_brokers cp_owner cp_client cp_lag]. repeat split; auto. intros b Hb.
+        destruct (somes_last r b Hb) as [_ Hlast]. rewrite Es in Hlast. rewrite <- (Hlast b0). reflexivity.
+      * intros H. injection H as <-. cbn. repeat split; auto.
+  - intros H. injection H as <-. cbn. repeat split; auto.
+Qed.
+
+Definition snap (grp : cgroup) : list (Z * list cpart) :=
+  map (fun tp => (fst tp, map snapshot_partition (snd tp))) (g_topics grp).
+
+Lemma in_snap grp t cps : In (t, cps) (snap grp) -> exists parts, In (t, parts) (g_topics grp) /\ cps = map snapshot_partition parts.
+Proof.
+  unfold snap. intros H. apply in_map_iff in H. destruct H as ([t0 parts] & E & Hin). cbn in E. injection E as <- <-.
+  exists parts. auto.
+Qed.
+
+Lemma fetch_inv cf now st c cl g lb P :
+  let N := cf_intervals cf in
+  get st c = Some cl -> cinv N lb P cl ->
+  fetch_consumer cf now st c g = Done st RNil \/
+  (exists cl', fetch_consumer cf now st c g = Done (set st c cl') RNil /\ cinv N lb P cl' /\
+               cl_broker cl' = cl_broker cl /\ rings_kept N cl cl') \/
+  (exists grp l, get (cl_consumer cl) g = Some grp /\ fetch_consumer cf now st c g = Done st (RConsumer l) /\
+                 fetch_topics_lags (cl_broker cl) (snap grp) = Some l).
+Proof.
+  intros N Hc Hinv. unfold fetch_consumer. rewrite Hc.
+  destruct (get (cl_consumer cl) g) as [grp|] eqn:Egr; [|left; reflexivity].
+  destruct (expired cf now (g_last grp)).
+  - right. left. destruct (cinv_remove_group N lb P cl g Hinv) as [Hrm Hrk].
+    eexists. split; [reflexivity|]. split; [exact Hrm|]. split; [reflexivity|exact Hrk].
+  - right. right. fold (snap grp).
+    assert (Hok : fetch_topics_lags (cl_broker cl) (snap grp) <> None).
+    { apply fetch_topics_lags_ok. intros t cps _. destruct (get (cl_broker cl) t); [apply add_lags_ok|exact I]. }
+    destruct (fetch_topics_lags (cl_broker cl) (snap grp)) as [l|] eqn:El; [|congruence].
+    exists grp, l. auto.
+Qed.
+
+(* what a FetchConsumer reply says about one partition, in terms of the state *)
+Lemma fetch_reply_spec N lb P cl g grp l t cps i cp :
+  cinv N lb P cl -> get (cl_consumer cl) g = Some grp ->
+  fetch_topics_lags (cl_broker cl) (snap grp) = Some l ->
+  In (t, cps) l -> nth_error cps i = Some cp ->
+  exists pr, nth_error (cons_topic cl g t) i = Some pr /\
+    cp_owner cp = pr_owner pr /\ cp_client cp = pr_client pr /\
+    match pr_ring pr with
+    | None => cp_offsets cp = [] /\ cp_lag cp = 0
+    | Some w => exists b, lb t (Z.of_nat i) = Some b /\ in_i64 b /\ cp_offsets cp = rev w /\
+                          Forall (optP (P g t i)) w /\ (forall d, last (cp_brokers cp) d = b) /\
+                          cp_lag cp = match hd None w with Some lo => current_lag b (co_offset lo) | None => 0 end
+    end.
+Proof.
+  intros [Hb Hg] Egr El Hin Hi.
+  destruct (fetch_topics_lags_spec _ _ _ El t cps Hin) as (cps0 & Hin0 & Hm).
+  destruct (in_snap grp t cps0 Hin0) as (parts & Hp & ->).
+  destruct (Hg g grp Egr) as [Hnd Hgt]. pose proof (in_get _ _ _ Hnd Hp) as Hget.
+  destruct (Hgt t parts Hget) as (tl & Htl & [Hlen Hpp]). rewrite Htl in Hm.
+  destruct (add_lags_spec _ _ _ _ Hm i cp Hi) as (cp0 & Hcp0 & Hal). cbn [Nat.add] in Hal.
+  rewrite nth_error_map in Hcp0. destruct (nth_error parts i) as [pr|] eqn:Ej; [|discriminate].
+  cbn in Hcp0. injection Hcp0 as <-.
+  assert (Hil : (i < length tl)%nat).
+  { assert (i < length parts)%nat by (apply nth_error_Some; congruence). unfold bring in *. lia. }
+  destruct (nth_error tl i) as [r|] eqn:Hr; [|apply nth_error_None in Hr; unfold bring in *; lia].
+  exists pr. split; [unfold cons_topic; rewrite Egr, Hget; exact Ej|].
+  destruct (add_lag_snapshot r pr cp Hal) as (Hbr & Hown & Hcli & Hring).
+  split; [exact Hown|]. split; [exact Hcli|].
+  destruct (pr_ring pr) as [w|] eqn:Ew; [|exact Hring].
+  destruct Hring as [Hoffs Hlag]. destruct (Hpp i pr Ej w Ew) as (HFw & r' & b & Hr' & Hbv).
+  assert (r' = r) by congruence. subst r'.
+  destruct (Hb t tl Htl) as [HFb HLb].
+  exists b. split; [eapply HLb; eauto|]. split.
+  { rewrite Forall_forall in HFb. destruct (HFb r (nth_error_In _ _ Hr)) as [_ HFr].
+    rewrite Forall_forall in HFr. apply (HFr (Some b)). apply last_In_some. exact Hbv. }
+  split; [exact Hoffs|]. split; [exact HFw|]. split; [|apply Hlag; exact Hbv].
+  intros d. rewrite Hbr. apply (somes_last r b Hbv).
+Qed.
+
+(* ================================================================================================ *)
+(* 3. histories                                                                                     *)
+(* ================================================================================================ *)
+
+Definition hist := list (Z * req).
+
+Lemma run_app cf st h1 h2 :
+  run cf st (h1 ++ h2) =
+  match run cf st h1 with
+  | Some (st1, r1) => match run cf st1 h2 with Some (st2, r2) => Some (st2, r1 ++ r2) | None => None end
+  | None => None
+  end.
+Proof.
+  revert st. induction h1 as [|[now r] h1 IH]; intros st; cbn [run app].
+  - destruct (run cf st h2) as [[st2 r2]|]; reflexivity.
+  - destruct (step cf now st r) as [st' rep|]; [|reflexivity]. rewrite IH.
+    destruct (run cf st' h1) as [[st1 r1]|]; [|reflexivity].
+    destruct (run cf st1 h2) as [[st2 r2]|]; reflexivity.
+Qed.
+
+Lemma run_snoc cf st h now r :
+  run cf st (h ++ [(now, r)]) =
+  match run cf st h with
+  | Some (st1, r1) => match step cf now st1 r with Done st2 rep => Some (st2, r1 ++ [rep]) | Crashed => None end
+  | None => None
+  end.
+Proof.
+  rewrite run_app. destruct (run cf st h) as [[st1 r1]|]; [|reflexivity]. cbn [run].
+  destruct (step cf now st1 r); reflexivity.
+Qed.
+
+Lemma run_length cf st h st' reps : run cf st h = Some (st', reps) -> length reps = length h.
+Proof.
+  revert st st' reps. induction h as [|[now r] h IH]; intros st st' reps H; cbn [run] in H.
+  - injection H as <- <-. reflexivity.
+  - destruct (step cf now st r) as [s1 rep|]; [|discriminate].
+    destruct (run cf s1 h) as [[s2 rs]|] eqn:E; [|discriminate]. injection H as <- <-. cbn. f_equal. eapply IH; exact E.
+Qed.
+
+(* -- the spec side: what the history says -- *)
+Definition is_broker (c t p : Z) (r : req) : option Z :=
+  match r with
+  | SetBrokerOffset c' t' p' _ off => if (c' =? c) && (t' =? t) && (p' =? p) then Some off else None
+  | _ => None
+  end.
+
+(* the offset carried by the last SetBrokerOffset for (cluster, topic, partition) in the history *)
+Fixpoint last_broker (h : hist) (c t p : Z) : option Z :=
+  match h with
+  | [] => None
+  | (_, r) :: rest =>
+      match last_broker rest c t p with
+      | Some b => Some b
+      | None => is_broker c t p r
+      end
+  end.
+
+Lemma last_broker_app h1 h2 c t p :
+  last_broker (h1 ++ h2) c t p = match last_broker h2 c t p with Some b => Some b | None => last_broker h1 c t p end.
+Proof.
+  induction h1 as [|[now r] h1 IH]; cbn [app last_broker]; [destruct (last_broker h2 c t p); reflexivity|].
+  rewrite IH. destruct (last_broker h2 c t p); reflexivity.
+Qed.
+
+Lemma last_broker_snoc h now r c t p :
+  last_broker (h ++ [(now, r)]) c t p = match is_broker c t p r with Some b => Some b | None => last_broker h c t p end.
+Proof. rewrite last_broker_app. cbn [last_broker]. destruct (is_broker c t p r); reflexivity. Qed.
+
+(* requests as the cluster and consumer modules produce them: a broker offset names a partition below the
+   partition count it announces; offsets are int64 *)
+Definition wf_req (r : req) : Prop :=
+  match r with
+  | SetBrokerOffset _ _ p cnt off => 0 <= p < cnt /\ in_i64 off
+  | SetConsumerOffset _ _ _ _ off _ _ => in_i64 off
+  | _ => True
+  end.
+Definition wf_hist (h : hist) : Prop := Forall (fun x => wf_req (snd x)) h.
+
+(* what the history knows about the lag field of a stored commit: absent, or the clamped distance to the broker
+   offset that was the newest when a commit with this offset and log position arrived *)
+Definition lag_ok (h : hist) (c g t p : Z) (e : coff) : Prop :=
+  co_lag e = None \/
+  exists h1 now ts rest b,
+    h = h1 ++ (now, SetConsumerOffset c g t p (co_offset e) (co_order e) ts) :: rest /\
+    last_broker h1 c t p = Some b /\ co_lag e = Some (Z.max 0 (b - co_offset e)) /\ 0 <= Z.max 0 (b - co_offset e) < two64.
+
+Definition commit_ok (h : hist) (c g t : Z) (i : nat) (e : coff) : Prop :=
+  in_i64 (co_offset e) /\ lag_ok h c g t (Z.of_nat i) e.
+
+Lemma lag_ok_app h h2 c g t p e : lag_ok h c g t p e -> lag_ok (h ++ h2) c g t p e.
+Proof.
+  intros [H|(h1 & now & ts & rest & b & -> & H)]; [left; exact H|].
+  right. exists h1, now, ts, (rest ++ h2), b. split; [|exact H]. rewrite <- app_assoc. reflexivity.
+Qed.
+
+Definition hinv (cf : config) (h : hist) (st : state) : Prop :=
+  forall c cl, get st c = Some cl -> cinv (cf_intervals cf) (last_broker h c) (commit_ok h c) cl.
+
+Lemma cinv_extend N h now r c cl :
+  (forall t p, is_broker c t p r = None) ->
+  cinv N (last_broker h c) (commit_ok h c) cl ->
+  cinv N (last_broker (h ++ [(now, r)]) c) (commit_ok (h ++ [(now, r)]) c) cl.
+Proof.
+  intros Hnb. apply cinv_impl.
+  - intros t p. rewrite last_broker_snoc, Hnb. reflexivity.
+  - intros g t i e [H1 H2]. split; [exact H1|apply lag_ok_app; exact H2].
+Qed.
+
+Lemma hinv_init cf cls : hinv cf [] (init_state cls).
+Proof.
+  intros c cl H. unfold init_state in H.
+  assert (cl = mkCluster [] []).
+  { induction cls as [|c0 cls IH]; cbn in H; [discriminate|]. destruct (c0 =? c); [congruence|auto]. }
+  subst cl. split; [intros t tl Ht; discriminate|intros g grp Hg; discriminate].
+Qed.
+
+Definition non_broker (r : req) : Prop := match r with SetBrokerOffset _ _ _ _ _ => False | _ => True end.
+
+Lemma non_broker_is r c t p : non_broker r -> is_broker c t p r = None.
+Proof. destruct r; cbn; tauto. Qed.
+
+Lemma hinv_extend cf h st now r : non_broker r -> hinv cf h st -> hinv cf (h ++ [(now, r)]) st.
+Proof. intros Hnb H c cl Hc. apply cinv_extend; [intros; apply non_broker_is; exact Hnb|apply H; exact Hc]. Qed.
+
+Lemma hinv_set cf h st c cl' :
+  hinv cf h st -> cinv (cf_intervals cf) (last_broker h c) (commit_ok h c) cl' -> hinv cf h (set st c cl').
+Proof.
+  intros H H0. unfold hinv.
+  apply (inv_set (fun c cl => cinv (cf_intervals cf) (last_broker h c) (commit_ok h c) cl)); assumption.
+Qed.
+
+(* one step keeps the invariant and cannot crash *)
+Lemma step_hinv cf h st now r :
+  (1 <= cf_intervals cf)%nat -> hinv cf h st -> wf_req r ->
+  exists st' rep, step cf now st r = Done st' rep /\ hinv cf (h ++ [(now, r)]) st'.
+Proof.
+  intros HN Hinv Hwf. set (h' := h ++ [(now, r)]).
+  destruct r as [c t p cnt off|c g t p off order ts|c g t p owner client|c g|c t|c g t| |c|c|c g|c t|c t]; cbn [step].
+  - (* SetBrokerOffset *)
+    destruct Hwf as [Hp Hoff].
+    assert (Hother : forall c' cl', c' <> c -> get st c' = Some cl' ->
+                       cinv (cf_intervals cf) (last_broker h' c') (commit_ok h' c') cl').
+    { intros c' cl' Hne Hc'. apply cinv_extend; [|apply Hinv; exact Hc'].
+      intros t' p'. cbn. destruct (c =? c') eqn:E; [lia|reflexivity]. }
+    destruct (get st c) as [cl|] eqn:Hc.
+    + destruct (abo_inv cf st c cl t p cnt off (last_broker h c) (last_broker h' c) (commit_ok h c) HN Hc (Hinv c cl Hc) Hp Hoff)
+        as (cl' & Hstep & _ & Hcl').
+      * unfold h'. rewrite last_broker_snoc. cbn. rewrite !Z.eqb_refl. reflexivity.
+      * intros t' p' Hd. unfold h'. rewrite last_broker_snoc. cbn. rewrite Z.eqb_refl. cbn.
+        destruct (t =? t') eqn:E1; [|reflexivity]. destruct (p =? p') eqn:E2; [lia|reflexivity].
+      * exists (set st c cl'), RNone. split; [exact Hstep|].
+        intros c' cl0 Hc'. apply get_set_inv in Hc'. destruct Hc' as [[-> ->]|[Hne Hc']]; [|apply Hother; assumption].
+        eapply cinv_impl; [reflexivity| |exact Hcl'].
+        intros g0 t0 i0 e [H1 H2]. split; [exact H1|apply lag_ok_app; exact H2].
+    + exists st, RNone. split; [unfold add_broker_offset; rewrite Hc; reflexivity|].
+      intros c' cl' Hc'. apply Hother; [congruence|exact Hc'].
+  - (* SetConsumerOffset *)
+    assert (Hinv' : hinv cf h' st) by (apply hinv_extend; [exact I|exact Hinv]).
+    destruct (get st c) as [cl|] eqn:Hc;
+      [|exists st, RNone; split; [unfold add_consumer_offset; rewrite Hc; reflexivity|exact Hinv']].
+    destruct (aco_inv cf now st c cl g t p off order ts (last_broker h' c) (commit_ok h' c) Hc (Hinv' c cl Hc))
+      as [Hstep|(cl' & boff & w' & app & Hstep & Hcl' & _)].
+    + intros boff app e Hp0 Hlb Hboff (He1 & He2 & He3). cbn in He1, He2. split; [rewrite He1; exact Hwf|].
+      destruct app; [|left; exact He3]. right.
+      exists h, now, ts, [], boff. rewrite He1, He2. split; [rewrite Z2Nat.id by exact Hp0; reflexivity|].
+      split.
+      * unfold h' in Hlb. rewrite last_broker_snoc in Hlb. cbn in Hlb. rewrite Z2Nat.id by exact Hp0. exact Hlb.
+      * destruct (commit_lag_spec boff off Hboff Hwf) as [E Hr]. rewrite He3, E. split; [reflexivity|]. rewrite <- E. exact Hr.
+    + exists st, RNone. split; [exact Hstep|exact Hinv'].
+    + exists (set st c cl'), RNone. split; [exact Hstep|]. apply hinv_set; [exact Hinv'|exact Hcl'].
+  - (* SetConsumerOwner *)
+    assert (Hinv' : hinv cf h' st) by (apply hinv_extend; [exact I|exact Hinv]).
+    destruct (get st c) as [cl|] eqn:Hc;
+      [|exists st, RNone; split; [unfold add_consumer_owner; rewrite Hc; reflexivity|exact Hinv']].
+    destruct (aown_inv cf st c cl g t p owner client _ _ Hc (Hinv' c cl Hc)) as [Hstep|(cl' & Hstep & Hcl' & _)].
+    + exists st, RNone. split; [exact Hstep|exact Hinv'].
+    + exists (set st c cl'), RNone. split; [exact Hstep|]. apply hinv_set; [exact Hinv'|exact Hcl'].
+  - (* ClearConsumerOwners *)
+    assert (Hinv' : hinv cf h' st) by (apply hinv_extend; [exact I|exact Hinv]).
+    destruct (get st c) as [cl|] eqn:Hc;
+      [|exists st, RNone; split; [unfold clear_consumer_owners; rewrite Hc; reflexivity|exact Hinv']].
+    destruct (clear_inv cf st c cl g _ _ Hc (Hinv' c cl Hc)) as [Hstep|(cl' & Hstep & Hcl' & _)].
+    + exists st, RNone. split; [exact Hstep|exact Hinv'].
+    + exists (set st c cl'), RNone. split; [exact Hstep|]. apply hinv_set; [exact Hinv'|exact Hcl'].
+  - (* DeleteTopic *)
+    assert (Hinv' : hinv cf h' st) by (apply hinv_extend; [exact I|exact Hinv]).
+    destruct (get st c) as [cl|] eqn:Hc;
+      [|exists st, RNone; split; [unfold delete_topic; rewrite Hc; reflexivity|exact Hinv']].
+    destruct (dtopic_inv cf st c cl t _ _ Hc (Hinv' c cl Hc)) as (cl' & Hstep & Hcl' & _).
+    exists (set st c cl'), RNone. split; [exact Hstep|]. apply hinv_set; [exact Hinv'|exact Hcl'].
+  - (* DeleteGroup *)
+    assert (Hinv' : hinv cf h' st) by (apply hinv_extend; [exact I|exact Hinv]).
+    destruct (get st c) as [cl|] eqn:Hc;
+      [|exists st, RNone; split; [unfold delete_group; rewrite Hc; reflexivity|exact Hinv']].
+    destruct (dgroup_inv cf st c cl g t _ _ Hc (Hinv' c cl Hc)) as [Hstep|(cl' & Hstep & Hcl' & _)].
+    + exists st, RNone. split; [exact Hstep|exact Hinv'].
+    + exists (set st c cl'), RNone. split; [exact Hstep|]. apply hinv_set; [exact Hinv'|exact Hcl'].
+  - eexists _, _. split; [reflexivity|]. apply hinv_extend; [exact I|exact Hinv].
+  - pose proof (hinv_extend cf h st now (FetchConsumers c) I Hinv) as Hinv'.
+    destruct (get st c); eexists _, _; (split; [reflexivity|exact Hinv']).
+  - pose proof (hinv_extend cf h st now (FetchTopics c) I Hinv) as Hinv'.
+    destruct (get st c); eexists _, _; (split; [reflexivity|exact Hinv']).
+  - (* FetchConsumer *)
+    assert (Hinv' : hinv cf h' st) by (apply hinv_extend; [exact I|exact Hinv]).
+    destruct (get st c) as [cl|] eqn:Hc;
+      [|exists st, RNil; split; [unfold fetch_consumer; rewrite Hc; reflexivity|exact Hinv']].
+    destruct (fetch_inv cf now st c cl g _ _ Hc (Hinv' c cl Hc)) as [Hstep|[(cl' & Hstep & Hcl' & _)|(grp & l & _ & Hstep & _)]].
+    + exists st, RNil. split; [exact Hstep|exact Hinv'].
+    + exists (set st c cl'), RNil. split; [exact Hstep|]. apply hinv_set; [exact Hinv'|exact Hcl'].
+    + exists st, (RConsumer l). split; [exact Hstep|exact Hinv'].
+  - pose proof (hinv_extend cf h st now (FetchTopic c t) I Hinv) as Hinv'. unfold fetch_topic.
+    destruct (get st c) as [cl|]; [destruct (get (cl_broker cl) t)|]; eexists _, _; (split; [reflexivity|exact Hinv']).
+  - pose proof (hinv_extend cf h st now (FetchConsumersForTopic c t) I Hinv) as Hinv'. unfold fetch_consumers_for_topic.
+    destruct (get st c) as [cl|]; eexists _, _; (split; [reflexivity|exact Hinv']).
+Qed.
+
+Lemma wf_hist_snoc h x : wf_hist (h ++ [x]) <-> wf_hist h /\ wf_req (snd x).
+Proof.
+  unfold wf_hist. rewrite Forall_app. split; [intros [H1 H2]; inversion H2; auto|intros [H1 H2]; auto].
+Qed.
+
+(* In every sequential history of well-formed requests storage never crashes, and the invariant holds. *)
+Theorem run_hinv cf cls h :
+  (1 <= cf_intervals cf)%nat -> wf_hist h ->
+  exists st reps, run cf (init_state cls) h = Some (st, reps) /\ hinv cf h st.
+Proof.
+  intros HN. induction h as [|[now r] h IH] using rev_ind; intros Hwf.
+  - exists (init_state cls), []. split; [reflexivity|apply hinv_init].
+  - apply wf_hist_snoc in Hwf. destruct Hwf as [Hwf Hr]. destruct (IH Hwf) as (st & reps & Hrun & Hinv).
+    destruct (step_hinv cf h st now r HN Hinv Hr) as (st' & rep & Hstep & Hinv').
+    exists st', (reps ++ [rep]). split; [|exact Hinv']. rewrite run_snoc, Hrun, Hstep. reflexivity.
+Qed.
+
+(* ================================================================================================ *)
+(* 4. the shared state invariant, and C01                                                           *)
+(* ================================================================================================ *)
+
+(* State-only part of the invariant (shared with C02/C08/C09): per cluster,
+   - every broker ring has [intervals] slots and holds int64 values;
+   - a group's topic map has no duplicate key; every consumer topic is also a broker topic, with at most as many
+     partitions; wherever a consumer partition has an offsets ring, the broker ring of the same index exists and
+     its newest slot is filled; stored commit offsets are int64.
+   This is what makes [topicMap[p]] and [BrokerOffsets[len-1]] in fetchConsumer safe. *)
+Definition storage_inv (cf : config) (st : state) : Prop :=
+  forall c cl, get st c = Some cl ->
+    (forall t tl, get (cl_broker cl) t = Some tl -> Forall (bring_ok (cf_intervals cf)) tl) /\
+    (forall g grp, get (cl_consumer cl) g = Some grp ->
+                   group_ok (fun _ _ e => in_i64 (co_offset e)) (cl_broker cl) grp).
+
+Lemma hinv_storage_inv cf h st : hinv cf h st -> storage_inv cf st.
+Proof.
+  intros H c cl Hc. destruct (H c cl Hc) as [Hb Hg]. split.
+  - intros t tl Ht. apply (Hb t tl Ht).
+  - intros g grp Hgr. eapply group_ok_impl; [|apply Hg; exact Hgr]. intros t i e [He _]. exact He.
+Qed.
+
+Theorem storage_never_crashes cf cls h :
+  (1 <= cf_intervals cf)%nat -> wf_hist h ->
+  exists st reps, run cf (init_state cls) h = Some (st, reps) /\ storage_inv cf st.
+Proof.
+  intros HN Hwf. destruct (run_hinv cf cls h HN Hwf) as (st & reps & Hrun & Hinv).
+  exists st, reps. split; [exact Hrun|eapply hinv_storage_inv; exact Hinv].
+Qed.
+
+Lemma run_reaches_hinv cf cls h st reps :
+  (1 <= cf_intervals cf)%nat -> wf_hist h -> run cf (init_state cls) h = Some (st, reps) -> hinv cf h st.
+Proof.
+  intros HN Hwf Hrun. destruct (run_hinv cf cls h HN Hwf) as (st0 & reps0 & Hrun0 & Hinv).
+  rewrite Hrun in Hrun0. injection Hrun0 as -> _. exact Hinv.
+Qed.
+
+(* a FetchConsumer reply, read against the history *)
+Lemma fetch_reply_hist cf cls h st reps now c g st' l t cps i cp :
+  (1 <= cf_intervals cf)%nat -> wf_hist h ->
+  run cf (init_state cls) h = Some (st, reps) ->
+  fetch_consumer cf now st c g = Done st' (RConsumer l) ->
+  In (t, cps) l -> nth_error cps i = Some cp ->
+  exists cl pr, get st c = Some cl /\ nth_error (cons_topic cl g t) i = Some pr /\
+    match pr_ring pr with
+    | None => cp_offsets cp = [] /\ cp_lag cp = 0
+    | Some w => exists b, last_broker h c t (Z.of_nat i) = Some b /\ in_i64 b /\ cp_offsets cp = rev w /\
+                          Forall (optP (commit_ok h c g t i)) w /\ (forall d, last (cp_brokers cp) d = b) /\
+                          cp_lag cp = match hd None w with Some lo => current_lag b (co_offset lo) | None => 0 end
+    end.
+Proof.
+  intros HN Hwf Hrun Hf Hin Hi. pose proof (run_reaches_hinv _ _ _ _ _ HN Hwf Hrun) as Hinv.
+  destruct (get st c) as [cl|] eqn:Hc; [|unfold fetch_consumer in Hf; rewrite Hc in Hf; discriminate].
+  destruct (fetch_inv cf now st c cl g _ _ Hc (Hinv c cl Hc)) as [Hs|[(cl' & Hs & _)|(grp & l0 & Hgr & Hs & Hl0)]];
+    rewrite Hs in Hf; try discriminate.
+  injection Hf as _ <-.
+  destruct (fetch_reply_spec _ _ _ cl g grp l0 t cps i cp (Hinv c cl Hc) Hgr Hl0 Hin Hi) as (pr & Hpr & _ & _ & Hm).
+  exists cl, pr. auto.
+Qed.
+
+Lemma hd_In {A} (w : list (option A)) x : hd None w = Some x -> In (Some x) w.
+Proof. destruct w as [|y w]; cbn; [discriminate|]. intros ->. left; reflexivity. Qed.
+
+(* C01, first sentence.  [last (cp_offsets cp) None] is the newest slot of the window in the reply;
+   [last_broker h c t p] is a function of the history alone. *)
+Theorem current_lag_exact cf cls h st reps now c g st' l t cps i cp :
+  (1 <= cf_intervals cf)%nat -> wf_hist h ->
+  run cf (init_state cls) h = Some (st, reps) ->
+  fetch_consumer cf now st c g = Done st' (RConsumer l) ->
+  In (t, cps) l -> nth_error cps i = Some cp ->
+  match last (cp_offsets cp) None with
+  | Some k => exists b, last_broker h c t (Z.of_nat i) = Some b /\ (forall d, last (cp_brokers cp) d = b) /\
+                        cp_lag cp = Z.max 0 (b - co_offset k) /\ 0 <= cp_lag cp < two64
+  | None => cp_lag cp = 0
+  end.
+Proof.
+  intros HN Hwf Hrun Hf Hin Hi.
+  destruct (fetch_reply_hist _ _ _ _ _ _ _ _ _ _ _ _ _ _ HN Hwf Hrun Hf Hin Hi) as (cl & pr & _ & _ & Hm).
+  destruct (pr_ring pr) as [w|].
+  - destruct Hm as (b & Hlb & Hb & -> & HFw & Hbr & Hlag). rewrite last_rev_hd.
+    destruct (hd None w) as [k|] eqn:Ehd; [|exact Hlag].
+    exists b. split; [exact Hlb|]. split; [exact Hbr|].
+    rewrite Forall_forall in HFw. destruct (HFw (Some k) (hd_In _ _ Ehd)) as [Hk _].
+    destruct (current_lag_spec b (co_offset k) Hb Hk) as [E Hr]. rewrite Hlag, <- E. split; [reflexivity|exact Hr].
+  - destruct Hm as [-> ->]. reflexivity.
+Qed.
+
+(* C01, second sentence, global form: whatever lag value a reported commit carries is the clamped distance to the
+   broker offset that was the newest when a commit with that offset and log position arrived. *)
+Theorem stored_lag_exact cf cls h st reps now c g st' l t cps i cp e :
+  (1 <= cf_intervals cf)%nat -> wf_hist h ->
+  run cf (init_state cls) h = Some (st, reps) ->
+  fetch_consumer cf now st c g = Done st' (RConsumer l) ->
+  In (t, cps) l -> nth_error cps i = Some cp -> In (Some e) (cp_offsets cp) ->
+  lag_ok h c g t (Z.of_nat i) e.
+Proof.
+  intros HN Hwf Hrun Hf Hin Hi He.
+  destruct (fetch_reply_hist _ _ _ _ _ _ _ _ _ _ _ _ _ _ HN Hwf Hrun Hf Hin Hi) as (cl & pr & _ & _ & Hm).
+  destruct (pr_ring pr) as [w|].
+  - destruct Hm as (b & _ & _ & Ho & HFw & _). rewrite Ho in He. apply in_rev in He.
+    rewrite Forall_forall in HFw. apply (HFw (Some e) He).
+  - destruct Hm as [Ho _]. rewrite Ho in He. contradiction.
+Qed.
+
+(* the same two statements for a fetch made at any point of a longer history *)
+Lemma run_fetch_at cf st0 h1 now c g h2 st reps l :
+  run cf st0 (h1 ++ (now, FetchConsumer c g) :: h2) = Some (st, reps) ->
+  nth_error reps (length h1) = Some (RConsumer l) ->
+  exists st1 r1 st1', run cf st0 h1 = Some (st1, r1) /\ fetch_consumer cf now st1 c g = Done st1' (RConsumer l).
+Proof.
+  intros Hrun Hn. rewrite run_app in Hrun. destruct (run cf st0 h1) as [[st1 r1]|] eqn:E1; [|discriminate].
+  cbn [run step] in Hrun. destruct (fetch_consumer cf now st1 c g) as [st1' rep|] eqn:Ef; [|discriminate].
+  destruct (run cf st1' h2) as [[st2 r2]|]; [|discriminate]. injection Hrun as <- <-.
+  rewrite nth_error_app2 in Hn by (rewrite (run_length _ _ _ _ _ E1); lia).
+  rewrite (run_length _ _ _ _ _ E1), Nat.sub_diag in Hn. cbn in Hn. injection Hn as ->.
+  exists st1, r1, st1'. auto.
+Qed.
+
+Theorem current_lag_exact_anywhere cf cls h1 now c g h2 st reps l t cps i cp :
+  (1 <= cf_intervals cf)%nat -> wf_hist (h1 ++ (now, FetchConsumer c g) :: h2) ->
+  run cf (init_state cls) (h1 ++ (now, FetchConsumer c g) :: h2) = Some (st, reps) ->
+  nth_error reps (length h1) = Some (RConsumer l) ->
+  In (t, cps) l -> nth_error cps i = Some cp ->
+  match last (cp_offsets cp) None with
+  | Some k => exists b, last_broker h1 c t (Z.of_nat i) = Some b /\ (forall d, last (cp_brokers cp) d = b) /\
+                        cp_lag cp = Z.max 0 (b - co_offset k) /\ 0 <= cp_lag cp < two64
+  | None => cp_lag cp = 0
+  end.
+Proof.
+  intros HN Hwf Hrun Hn Hin Hi. destruct (run_fetch_at _ _ _ _ _ _ _ _ _ _ Hrun Hn) as (st1 & r1 & st1' & H1 & Hf).
+  unfold wf_hist in Hwf. apply Forall_app in Hwf. destruct Hwf as [Hwf1 _].
+  eapply current_lag_exact; eauto.
+Qed.
+
+Theorem stored_lag_exact_anywhere cf cls h1 now c g h2 st reps l t cps i cp e :
+  (1 <= cf_intervals cf)%nat -> wf_hist (h1 ++ (now, FetchConsumer c g) :: h2) ->
+  run cf (init_state cls) (h1 ++ (now, FetchConsumer c g) :: h2) = Some (st, reps) ->
+  nth_error reps (length h1) = Some (RConsumer l) ->
+  In (t, cps) l -> nth_error cps i = Some cp -> In (Some e) (cp_offsets cp) ->
+  lag_ok h1 c g t (Z.of_nat i) e.
+Proof.
+  intros HN Hwf Hrun Hn Hin Hi He. destruct (run_fetch_at _ _ _ _ _ _ _ _ _ _ Hrun Hn) as (st1 & r1 & st1' & H1 & Hf).
+  unfold wf_hist in Hwf. apply Forall_app in Hwf. destruct Hwf as [Hwf1 _].
+  eapply stored_lag_exact; eauto.
+Qed.
+
+(* ---- C01, second sentence, step-wise: what one arriving commit does to the window, and that nothing else ever
+        rewrites a stored commit ---- *)
+
+(* the offsets ring of (cluster, group, topic, partition) as the next commit will find it *)
+Definition ring_of (cf : config) (st : state) (c g t p : Z) : ring :=
+  match get st c with
+  | Some cl => ring_at (cf_intervals cf) (cons_topic cl g t) (Z.to_nat p)
+  | None => new_ring (cf_intervals cf)
+  end.
+
+Lemma ring_of_set_same cf st c cl' g t p :
+  ring_of cf (set st c cl') c g t p = ring_at (cf_intervals cf) (cons_topic cl' g t) (Z.to_nat p).
+Proof. unfold ring_of. rewrite get_set_eq. reflexivity. Qed.
+
+Lemma ring_of_set_other cf st c0 cl' c g t p : c0 <> c -> ring_of cf (set st c0 cl') c g t p = ring_of cf st c g t p.
+Proof. intros H. unfold ring_of. rewrite get_set_neq by exact H. reflexivity. Qed.
+
+Theorem commit_lag_step cf cls h st reps now c g t p off order ts st' rep :
+  (1 <= cf_intervals cf)%nat -> wf_hist h -> in_i64 off ->
+  run cf (init_state cls) h = Some (st, reps) ->
+  step cf now st (SetConsumerOffset c g t p off order ts) = Done st' rep ->
+  let w := ring_of cf st c g t p in
+  let w' := ring_of cf st' c g t p in
+  (* dropped (too old, rejected group, unknown cluster / broker partition, duplicate, older than a full window) *)
+  w' = w \/
+  (* arrived as the newest: lag against the broker offset known at this arrival; one old slot gives way *)
+  (exists b, last_broker h c t p = Some b /\
+     (hd None w = None \/ exists nw, hd None w = Some nw /\ co_order nw < order) /\
+     exists e rest a' x b', w' = Some e :: rest /\ co_offset e = off /\ co_order e = order /\
+        co_lag e = Some (Z.max 0 (b - off)) /\ 0 <= Z.max 0 (b - off) < two64 /\
+        w = a' ++ x :: b' /\ rest = a' ++ b') \/
+  (* arrived out of order: stored without a lag value; one old slot gives way *)
+  ((exists nw, hd None w = Some nw /\ order <= co_order nw) /\
+   exists e, co_offset e = off /\ co_order e = order /\ co_lag e = None /\ overwrite w w' e).
+Proof.
+  intros HN Hwf Hoff Hrun Hstep w w'. pose proof (run_reaches_hinv _ _ _ _ _ HN Hwf Hrun) as Hinv.
+  cbn [step] in Hstep. subst w w'.
+  destruct (get st c) as [cl|] eqn:Hc;
+    [|unfold add_consumer_offset in Hstep; rewrite Hc in Hstep; injection Hstep as <- _; left; reflexivity].
+  destruct (aco_inv cf now st c cl g t p off order ts (last_broker h c) (fun _ _ _ _ => True) Hc) as
+    [Hs|(cl' & boff & w1 & app & Hs & _ & _ & Hlb & Hboff & Hp0 & Hrs & Hw1 & _)].
+  - eapply cinv_impl; [reflexivity| |apply Hinv; exact Hc]. intros; exact I.
+  - intros; exact I.
+  - rewrite Hs in Hstep. injection Hstep as <- _. left; reflexivity.
+  - rewrite Hs in Hstep. injection Hstep as <- _. rewrite ring_of_set_same, Hw1.
+    unfold ring_of at 1 2 3 4 5 6. rewrite Hc.
+    apply ring_step_cases in Hrs. destruct app.
+    + right. left. destruct Hrs as (Hnew & e & rest & a' & x & b' & E1 & (He1 & He2 & He3) & E2 & E3).
+      exists boff. split; [exact Hlb|]. split; [exact Hnew|]. exists e, rest, a', x, b'.
+      destruct (commit_lag_spec boff off Hboff Hoff) as [E Hr]. cbn in He1, He2.
+      repeat split; auto; try lia. rewrite He3, E. reflexivity.
+    + destruct Hrs as [->|(Hold & e & (He1 & He2 & He3) & How)]; [left; reflexivity|].
+      right. right. split; [exact Hold|]. exists e. auto.
+Qed.
+
+(* every other request leaves the ring of (c,g,t,p) untouched, or removes it altogether *)
+Theorem commit_frame cf cls h st reps now r c g t p st' rep :
+  (1 <= cf_intervals cf)%nat -> wf_hist h -> wf_req r -> 0 <= p ->
+  run cf (init_state cls) h = Some (st, reps) ->
+  step cf now st r = Done st' rep ->
+  (forall off order ts, r <> SetConsumerOffset c g t p off order ts) ->
+  ring_of cf st' c g t p = ring_of cf st c g t p \/ ring_of cf st' c g t p = new_ring (cf_intervals cf).
+Proof.
+  intros HN Hwf Hr Hp0 Hrun Hstep Hnot. pose proof (run_reaches_hinv _ _ _ _ _ HN Hwf Hrun) as Hinv.
+  set (N := cf_intervals cf).
+  (* a step on cluster c0 that replaces it by cl' *)
+  assert (Hset : forall c0 cl0 cl', get st c0 = Some cl0 -> st' = set st c0 cl' ->
+            (c0 = c -> ring_at N (cons_topic cl' g t) (Z.to_nat p) = ring_at N (cons_topic cl0 g t) (Z.to_nat p) \/
+                       ring_at N (cons_topic cl' g t) (Z.to_nat p) = new_ring N) ->
+            ring_of cf st' c g t p = ring_of cf st c g t p \/ ring_of cf st' c g t p = new_ring N).
+  { intros c0 cl0 cl' Hc0 -> Hk. destruct (Z.eq_dec c0 c) as [->|Hne].
+    - rewrite ring_of_set_same. unfold ring_of. rewrite Hc0. apply Hk. reflexivity.
+    - left. apply ring_of_set_other. exact Hne. }
+  destruct r as [c0 t0 p0 cnt off|c0 g0 t0 p0 off order ts|c0 g0 t0 p0 owner client|c0 g0|c0 t0|c0 g0 t0| |c0|c0|c0 g0|c0 t0|c0 t0];
+    cbn [step] in Hstep.
+  - destruct Hr as [Hp Hoff]. destruct (get st c0) as [cl0|] eqn:Hc0;
+      [|unfold add_broker_offset in Hstep; rewrite Hc0 in Hstep; injection Hstep as <- _; left; reflexivity].
+    destruct (abo_inv cf st c0 cl0 t0 p0 cnt off (last_broker h c0)
+                (fun t' p' => if (t' =? t0) && (p' =? p0) then Some off else last_broker h c0 t' p')
+                (commit_ok h c0) HN Hc0 (Hinv c0 cl0 Hc0) Hp Hoff) as (cl' & Hs & Hcons & _).
+    + rewrite !Z.eqb_refl. reflexivity.
+    + intros t' p' Hd. destruct (t' =? t0) eqn:E1; [|reflexivity]. destruct (p' =? p0) eqn:E2; [lia|reflexivity].
+    + rewrite Hs in Hstep. injection Hstep as <- _. eapply Hset; [exact Hc0|reflexivity|].
+      intros _. left. unfold cons_topic. rewrite Hcons. reflexivity.
+  - destruct (get st c0) as [cl0|] eqn:Hc0;
+      [|unfold add_consumer_offset in Hstep; rewrite Hc0 in Hstep; injection Hstep as <- _; left; reflexivity].
+    destruct (aco_inv cf now st c0 cl0 g0 t0 p0 off order ts (last_broker h c0) (fun _ _ _ _ => True) Hc0) as
+      [Hs|(cl' & boff & w1 & app & Hs & _ & _ & _ & _ & Hp00 & _ & _ & Hfr)].
+    + eapply cinv_impl; [reflexivity| |apply Hinv; exact Hc0]. intros; exact I.
+    + intros; exact I.
+    + rewrite Hs in Hstep. injection Hstep as <- _. left; reflexivity.
+    + rewrite Hs in Hstep. injection Hstep as <- _. eapply Hset; [exact Hc0|reflexivity|].
+      intros ->. left. apply Hfr.
+      destruct (Z.eq_dec g g0) as [->|]; [|left; assumption]. destruct (Z.eq_dec t t0) as [->|]; [|right; left; assumption].
+      right. right. intros E. apply (Hnot off order ts). f_equal. lia.
+  - destruct (get st c0) as [cl0|] eqn:Hc0;
+      [|unfold add_consumer_owner in Hstep; rewrite Hc0 in Hstep; injection Hstep as <- _; left; reflexivity].
+    destruct (aown_inv cf st c0 cl0 g0 t0 p0 owner client _ _ Hc0 (Hinv c0 cl0 Hc0)) as [Hs|(cl' & Hs & _ & _ & Hfr)];
+      rewrite Hs in Hstep; injection Hstep as <- _; [left; reflexivity|].
+    eapply Hset; [exact Hc0|reflexivity|]. intros _. left. apply Hfr.
+  - destruct (get st c0) as [cl0|] eqn:Hc0;
+      [|unfold clear_consumer_owners in Hstep; rewrite Hc0 in Hstep; injection Hstep as <- _; left; reflexivity].
+    destruct (clear_inv cf st c0 cl0 g0 _ _ Hc0 (Hinv c0 cl0 Hc0)) as [Hs|(cl' & Hs & _ & _ & Hfr)];
+      rewrite Hs in Hstep; injection Hstep as <- _; [left; reflexivity|].
+    eapply Hset; [exact Hc0|reflexivity|]. intros _. left. apply Hfr.
+  - destruct (get st c0) as [cl0|] eqn:Hc0;
+      [|unfold delete_topic in Hstep; rewrite Hc0 in Hstep; injection Hstep as <- _; left; reflexivity].
+    destruct (dtopic_inv cf st c0 cl0 t0 _ _ Hc0 (Hinv c0 cl0 Hc0)) as (cl' & Hs & _ & Hfr).
+    rewrite Hs in Hstep; injection Hstep as <- _. eapply Hset; [exact Hc0|reflexivity|]. intros _. apply Hfr.
+  - destruct (get st c0) as [cl0|] eqn:Hc0;
+      [|unfold delete_group in Hstep; rewrite Hc0 in Hstep; injection Hstep as <- _; left; reflexivity].
+    destruct (dgroup_inv cf st c0 cl0 g0 t0 _ _ Hc0 (Hinv c0 cl0 Hc0)) as [Hs|(cl' & Hs & _ & _ & Hfr)];
+      rewrite Hs in Hstep; injection Hstep as <- _; [left; reflexivity|].
+    eapply Hset; [exact Hc0|reflexivity|]. intros _. apply Hfr.
+  - injection Hstep as <- _. left; reflexivity.
+  - destruct (get st c0); injection Hstep as <- _; left; reflexivity.
+  - destruct (get st c0); injection Hstep as <- _; left; reflexivity.
+  - destruct (get st c0) as [cl0|] eqn:Hc0;
+      [|unfold fetch_consumer in Hstep; rewrite Hc0 in Hstep; injection Hstep as <- _; left; reflexivity].
+    destruct (fetch_inv cf now st c0 cl0 g0 _ _ Hc0 (Hinv c0 cl0 Hc0)) as [Hs|[(cl' & Hs & _ & _ & Hfr)|(grp & l & _ & Hs & _)]];
+      rewrite Hs in Hstep; injection Hstep as <- _; [left; reflexivity| |left; reflexivity].
+    eapply Hset; [exact Hc0|reflexivity|]. intros _. apply Hfr.
+  - unfold fetch_topic in Hstep. destruct (get st c0) as [cl0|]; [destruct (get (cl_broker cl0) t0)|];
+      injection Hstep as <- _; left; reflexivity.
+  - unfold fetch_consumers_for_topic in Hstep. destruct (get st c0); injection Hstep as <- _; left; reflexivity.
+Qed.
+
+(* the cast after the guard, in the strict form of the two call sites (inmemory.go:437 and :877) *)
+Lemma lag_cast_exact_strict b o :
+  in_i64 b -> in_i64 o -> o < b -> u64 (sub64 b o) = b - o /\ 0 < b - o < two64.
+Proof. intros Hb Ho H. destruct (lag_cast_exact b o Hb Ho ltac:(lia)) as [E Hr]. split; [exact E|lia]. Qed.
+
+(* ---- non-vacuity: concrete histories that meet the hypotheses and exercise each clause ---- *)
+Definition ex_cfg : config := mkConfig 3 1000 0 (fun _ => true).
+
+(* consumer ahead of the broker: broker 50, commit at 60 *)
+Definition ex_ahead : hist :=
+  [(100, SetBrokerOffset 1 1 0 1 50); (100, SetConsumerOffset 1 1 1 0 60 1 100000)].
+
+(* the broker offset changes between two commits: 100, commit 90, 200, commit 150 *)
+Definition ex_moving : hist :=
+  [(100, SetBrokerOffset 1 1 0 1 100); (100, SetConsumerOffset 1 1 1 0 90 1 100000);
+   (101, SetBrokerOffset 1 1 0 1 200); (101, SetConsumerOffset 1 1 1 0 150 2 101000)].
+
+(* an out-of-order commit: log position 3 arrives after log position 5 *)
+Definition ex_ooo : hist :=
+  [(100, SetBrokerOffset 1 1 0 1 100); (100, SetConsumerOffset 1 1 1 0 50 5 100000);
+   (100, SetConsumerOffset 1 1 1 0 40 3 99000)].
+
+(* extreme values: broker 2^63-1, consumer -2^63: the difference does not fit int64 but the lag is exact *)
+Definition ex_extreme : hist :=
+  [(100, SetBrokerOffset 1 1 0 1 9223372036854775807); (100, SetConsumerOffset 1 1 1 0 (-9223372036854775808) 1 100000)].
+
+Local Ltac wf_tac := unfold wf_hist; repeat (apply Forall_cons || apply Forall_nil); cbn [snd wf_req]; unfold in_i64, two63; lia.
+
+Lemma ex_ahead_ok :
+  wf_hist ex_ahead /\ last_broker ex_ahead 1 1 0 = Some 50 /\
+  exists st reps, run ex_cfg (init_state [1]) ex_ahead = Some (st, reps) /\
+    fetch_consumer ex_cfg 100 st 1 1 =
+      Done st (RConsumer [(1, [mkCpart [None; None; Some (mkCoff 60 1 100000 (Some 0))] [50] 0 0 0])]).
+Proof. split; [wf_tac|]. split; [reflexivity|]. eexists _, _. split; [vm_compute; reflexivity|]. vm_compute. reflexivity. Qed.
+
+Lemma ex_moving_ok :
+  wf_hist ex_moving /\ last_broker ex_moving 1 1 0 = Some 200 /\
+  last_broker (firstn 1 ex_moving) 1 1 0 = Some 100 /\
+  exists st reps, run ex_cfg (init_state [1]) ex_moving = Some (st, reps) /\
+    fetch_consumer ex_cfg 101 st 1 1 =
+      Done st (RConsumer [(1, [mkCpart [None; Some (mkCoff 90 1 100000 (Some 10)); Some (mkCoff 150 2 101000 (Some 50))]
+                                       [100; 200] 0 0 50])]).
+Proof. split; [wf_tac|]. split; [reflexivity|]. split; [reflexivity|]. eexists _, _. split; [vm_compute; reflexivity|]. vm_compute. reflexivity. Qed.
+
+Lemma ex_ooo_ok :
+  wf_hist ex_ooo /\
+  exists st reps, run ex_cfg (init_state [1]) ex_ooo = Some (st, reps) /\
+    fetch_consumer ex_cfg 100 st 1 1 =
+      Done st (RConsumer [(1, [mkCpart [None; Some (mkCoff 40 3 99000 None); Some (mkCoff 50 5 100000 (Some 50))]
+                                       [100] 0 0 50])]).
+Proof. split; [wf_tac|]. eexists _, _. split; [vm_compute; reflexivity|]. vm_compute. reflexivity. Qed.
+
+Lemma ex_extreme_ok :
+  wf_hist ex_extreme /\
+  exists st reps, run ex_cfg (init_state [1]) ex_extreme = Some (st, reps) /\
+    fetch_consumer ex_cfg 100 st 1 1 =
+      Done st (RConsumer [(1, [mkCpart [None; None; Some (mkCoff (-9223372036854775808) 1 100000 (Some 18446744073709551615))]
+                                       [9223372036854775807] 0 0 18446744073709551615])]).
+Proof. split; [wf_tac|]. eexists _, _. split; [vm_compute; reflexivity|]. vm_compute. reflexivity. Qed.
